@@ -15,7 +15,16 @@ TSentry == /\ l <= Len(TraceLog) /\ ev.e = "Sentry"
            /\ SentryObligations(ev.msg, ev.utc, ev.out, ids)
            /\ ids' = ids \cup {ev.out.id}
            /\ l' = l + 1
-TraceSpec == TInit /\ [][TJson \/ TSentry]_<<l, ids>>
+\* sentryUrl() in its three spellings and sentryHeaders()
+TUrl == /\ l <= Len(TraceLog) /\ ev.e = "Url"
+        /\ ev.dsn = SentryDsn(ev.host, ev.project, ev.key)              \* what the driver was given
+        /\ ev.fromDsn = SentryUrl(ev.host, ev.project, ev.key)
+        /\ ev.fromParts = SentryUrl(ev.host, ev.project, ev.key)
+        /\ ev.fromEnvDsn = SentryUrl(ev.host, ev.project, ev.key)
+        /\ ev.fromEnvParts = SentryUrl(ev.host, ev.project, ev.key)
+        /\ ev.ctype = SentryContentType /\ ev.envOk
+        /\ l' = l + 1 /\ UNCHANGED ids
+TraceSpec == TInit /\ [][TJson \/ TSentry \/ TUrl]_<<l, ids>>
 TraceAccepted ==
     LET d == TLCGet("stats").diameter
     IN  /\ PrintT(<<"TRACE_MATCHED", d - 1, Len(TraceLog)>>)
